@@ -87,11 +87,13 @@ claim('C08',
       'x ALL permutations of the state order; reported eigenvalues must equal the finite generalised eigenvalues of '
       '(J, diag(T,0)) from scipy, the state matrix T^-1(fx - fy gy^-1 gx), counts must partition, participation '
       'factors be non-negative with per-mode sum one and the most-associated state equal to an independent '
-      'decomposition; the same oracle on 7 stock dynamic cases through EIG.run and on every subset of <=1 (2) exciter '
-      'lead-lag constants set to zero.',
-      'Trusts scipy.linalg.eig on the pencil; patterns whose algebraic block has condition number > 1e3 (synthetic) / '
-      '1e8 (stock) are outside the property precondition and skipped; repeated eigenvalues are not judged for the '
-      'most-associated state.',
+      'decomposition; the same oracle (reference: the harness\'s own Schur reduction, plus a structural mode-count '
+      'clause) on 7 stock dynamic cases through EIG.run, on every subset of <=1 (2) exciter lead-lag constants set to '
+      'zero, and on ONE kundur_full System re-analysed after every operation of all sequences of depth <= 3 (4) that move '
+      'time constants between zero and non-zero.',
+      'Trusts scipy.linalg.eig / numpy eigvals; synthetic patterns whose algebraic block has condition number > 1e3 are '
+      'excluded at enumeration; stock cases are judged unless one of the two eliminations is numerically singular '
+      '(ieee39_full); repeated eigenvalues are not judged for the most-associated state.',
       'exhaustive enumeration of zero-T patterns x state permutations against a generalised-eigenvalue reference',
       'DESIGN.md#c08')
 
@@ -142,8 +144,9 @@ claim('C18',
       'DESIGN.md#c18')
 
 claim('C01',
-      'All connected graphs on 2..3 (4) buses; default network plus all single deviations (7 branch features incl. taps, '
-      'phase shift, asymmetric end shunts, charging, own MVA/kV base, offline parallel line; 5 bus device sets) plus pairs; '
+      'All connected graphs on 2..3 (4) buses; default network plus all single deviations (9 branch features incl. taps, '
+      'phase shift, asymmetric end shunts, charging, own MVA/kV base, offline parallel line, tap+charging and '
+      'tap+phase+end shunts on one branch; 5 bus device sets) plus pairs; '
       'cross dimensions one at a time (reversed order, string indices, re-based data, json round trip, dishonest / '
       'Newton-Krylov, umfpack / spsolve, linsolve, ipadd=0). Each execution: real PFlow.run from a flat start; complex power '
       'balance recomputed from the INPUT data by an independent pi-model with textbook base conversion, set-points, and '
@@ -217,7 +220,9 @@ claim('C04',
       'the step routine and every subset of <=1 (<=2) forced rejections (real Newton loop with an unsatisfiable tolerance) '
       'among the first 12 calls is executed. Every accepted step is checked row by row against the implicit rule with f, g '
       're-evaluated at the accepted point and a bound built from the iteration matrix and last increment the run itself used; '
-      'every rejected step must leave x, y, f bit-identical; step size, end time and monotone time are checked at every call.',
+      'every rejected step must leave x, y, f bit-identical; step size, end time, monotone time and "time advances by the h '
+      'used in the rule" are checked at every call. Every configuration is also interrupted at 0.2 s and resumed (with and '
+      'without a forced rejection after the resume); the sample stored before the interruption must be unchanged.',
       'Bound 2|Ac|(|inc| + tol 1e-6) (convergence is declared on the increment); f0 is the value the integrator used; steps at '
       'which the re-evaluation pegs a limiter are not judged; order of convergence is decided under C07.',
       'deviation-bounded exploration of forced step rejections on the real integrator with a per-step residual oracle',
@@ -231,7 +236,8 @@ claim('C05',
       'solution and an undisturbed 1 s run must stay within 10 tol. The same oracle on a two-machine base system with each of '
       'the ~55 generically attachable dynamic models (all exciters, governors, stabilisers, compensator, renewable generator '
       'and controller chain, distributed generators, dynamic loads, motors, measurement devices; exciter x governor pairs in '
-      'thorough), on kundur_full with each dynamic device offline, and on a static generator split between two machines.',
+      'thorough), on kundur_full with each dynamic device offline, on a static generator split between two machines, and on '
+      'two systems with all 25 combinations of the static-load conversion weights for P and Q.',
       'Precondition decided by the harness from live limiter flags; attach uses default parameters; models needing '
       'companion files only through stock cases.',
       'exhaustive enumeration of stock cases and attachable models with a residual-recomputation oracle',
@@ -240,7 +246,8 @@ claim('C05',
 claim('C14',
       'Reference = one uninterrupted run of a classical-machine system (fault + line trip), a static system (toggles + '
       'alteration) and kundur_full (line trip). Interruptions: every accepted-step boundary of the reference among the first '
-      '12 steps, te-eps / te / te+eps for every event, off-grid times; all singles and all pairs; continuation by extending tf '
+      '12 steps, te - 1e-4 / te - 1e-5 / te -+ 1e-6 / te / te + 1e-4 for every event, off-grid times; all singles and all '
+      'pairs; continuation by extending tf '
       'and calling run() again, by save_ss -> load_ss in the same process, and by loading the snapshot in a fresh interpreter. '
       'The event log must equal the reference log (none lost, repeated or shifted), the time axis must be strictly increasing '
       'with no gap beyond the step and contain every split time, the final state must agree (1e-9 at step boundaries, '
